@@ -174,6 +174,7 @@ Definition upd (c : deviations) (k : nat) : deviations :=
      d_kw_dup_silent := if Nat.eqb k 103 then false else d_kw_dup_silent c;
      d_comp_leak_on_exc := if Nat.eqb k 104 then false else d_comp_leak_on_exc c;
      d_set_late_hash := if Nat.eqb k 105 then false else d_set_late_hash c;
+     d_fstr_conv_early := if Nat.eqb k 1000 then false else d_fstr_conv_early c;
      d_unpack_drain := if Nat.eqb k 0 then false else d_unpack_drain c |}.
 
 Definition switches : list switch :=
@@ -190,6 +191,7 @@ Definition switches : list switch :=
     {| sw_id := 103; sw_get := d_kw_dup_silent; sw_off := fun c => upd c 103 |};
     {| sw_id := 104; sw_get := d_comp_leak_on_exc; sw_off := fun c => upd c 104 |};
     {| sw_id := 105; sw_get := d_set_late_hash; sw_off := fun c => upd c 105 |};
+    {| sw_id := 1000; sw_get := d_fstr_conv_early; sw_off := fun c => upd c 1000 |};   (* internal, never reported *)
     {| sw_id := 0; sw_get := d_unpack_drain; sw_off := fun c => upd c 0 |} ].   (* internal, never reported *)
 
 (* A Spec failure is attributed to the findings k1..kn iff the Model under the measured switches reproduces
@@ -209,7 +211,7 @@ Definition exercised (cfg : deviations) (c : tcase) : list switch :=
 Definition tcase_attrib (cfg : deviations) (c : tcase) : list nat :=
   let ex := exercised cfg c in
   let cfg' := fold_left (fun a s => sw_off s a) ex cfg in
-  let ids := filter (fun k => negb (Nat.eqb k 0)) (map sw_id ex) in
+  let ids := filter (fun k => negb (Nat.eqb k 0) && Nat.ltb k 1000) (map sw_id ex) in
   if ps_matches cfg c && negb (is_nil ids) && py_like cfg' c then ids else [].
 
 (* ---------- replay help ---------- *)
